@@ -282,6 +282,28 @@ def run_fs(desc):
                         out.known_hit(hit[0], case)
                     else:
                         out.violation(case, size=len(text) * 10 + len(r), bucket=('fs', tuple(sorted(ids))))
+            if api in (0, 1, 3, 4):
+                # the other direction: a hidden entry whose dot is consumed by a written dot is granted - everything the reference
+                # walk must return and that has a hidden component is in the result
+                from .. import walker as W, trees as T, findings as K
+                ref, und = W.ref_glob(T.Model(root), pp, FC.walker_opts(cfg))
+                if not und:
+                    got_n = {W.norm_dup(r_) for r_ in res}
+                    for p_, v_ in sorted(ref.items()):
+                        comps_ = [c_ for c_ in W.strip_sep(p_).split('/') if c_ not in ('', '.', '..')]
+                        if v_ != R.MUST or p_ in got_n or not any(c_.startswith('.') for c_ in comps_):
+                            continue
+                        out.evaluations += 1
+                        ids = K.path_classes(pp, W.strip_sep(p_), kw, False, R.MUST, text)
+                        hit = sorted(ids & set(armed))
+                        case = {'mode': 'fs-missing', 'ast': A.to_json(pp), 'pattern': text, 'cfg': cfg, 'api': api, 'name': p_, 'verdict': R.MUST,
+                                'variant': variant, 'result': sorted(res)[:12]}
+                        if hit:
+                            out.known_hit(hit[0], case)
+                        else:
+                            out.violation(case, size=len(text) * 10 + len(p_), bucket=('fs-missing', tuple(sorted(ids))))
+                        break
+                    out.stats['fs_positive_side_judged'] += 1
             out.stats['fs_globs'] += 1
             out.stats['fs_results_with_hidden'] += hidden_seen
             if any(A.has_wild(s) for s in segs if not isinstance(s, str)) or A.GS in segs:
@@ -382,6 +404,16 @@ def replay(case):
         b = bool(G.globmatch(case['name'], case['plain'], flags=case['flags']))
         special = case['name'].split('/')[-1] in ('.', '..') and case['flags'] & G.NODOTDIR
         return a == b and not (a and special), {'escaped_spelling': a, 'plain_spelling': b}
+    if m == 'fs-missing':
+        from .. import fscommon as FC, walker as W
+        with FC.built_tree(HIDDEN_TREE) as (root, _removed):
+            cfg = case['cfg']
+            pp = A.from_json(case['ast'])
+            text = A.render_path(pp, variant=case.get('variant', 0))
+            fl = lang.gl_flags(cfg) | (G.SCANDOTDIR if cfg.get('scandotdir') else 0) | (G.FOLLOW if cfg.get('follow') else 0)
+            with util.ScandirCounter(4000):
+                res = G.glob(text, flags=fl, root_dir=root)
+            return case['name'] in {W.norm_dup(r_) for r_ in res}, {'pattern': text, 'result': res[:20]}
     if m == 'fs':
         from .. import fscommon as FC
         with FC.built_tree(HIDDEN_TREE) as (root, _removed):
@@ -401,6 +433,6 @@ def replay(case):
 
 
 def shrink(case):
-    if case.get('mode') in ('exclude', 'fs', 'wcmatch', 'dotspell'):
+    if case.get('mode') in ('exclude', 'fs', 'fs-missing', 'wcmatch', 'dotspell'):
         return case
     return lang.shrink_case(case)
